@@ -577,7 +577,10 @@ def gen_state(rng, db, naccounts, extra_mode='full'):
         eb, er = eb[:-1], []
     elif extra_mode == 'no-ref':       # the Maybe bit announces a dictionary reference that is not there
         eb, er = eb[:-1] + '1', []
-    acell = db.add(G.ORD, '1' + eb, [droot] + er)
+    if extra_mode == 'empty':          # ahme_empty$0 extra:Y : the parser returns ({}, [extra]); the lookup of any address is a KeyError
+        acell = db.add(G.ORD, '0' + eb, er)
+    else:
+        acell = db.add(G.ORD, '1' + eb, [droot] + er)
     for k in keys:
         path[k].append(acell)
     omq = G.gen_exotic_tree(rng, db, 0, rng.randrange(1, 5))
@@ -858,7 +861,8 @@ def extra_stream(ctx, rng):
     root, so these states cannot be parsed and the account check must raise (Model/Proof.lean `readsDepthBalance` = false). Unpruned proofs over an
     otherwise valid state; 'none' carries the by-construction expectation, the cut variants are gray (model = library only), 'full' is the control."""
     modes = (('none', 'rej', 'account:no-extra'), ('short', None, 'gray:extra-short'), ('grams-cut', None, 'gray:extra-grams-cut'),
-             ('no-maybe', None, 'gray:extra-no-maybe'), ('no-ref', None, 'gray:extra-no-ref'), ('full', 'acc', 'complete:account'))
+             ('no-maybe', None, 'gray:extra-no-maybe'), ('no-ref', None, 'gray:extra-no-ref'), ('empty', 'rej', 'account:empty-dict'),
+             ('full', 'acc', 'complete:account'))
     for _ in range(ctx.n(2, 12)):
         for mode, expect, fkey in modes:
             db = G.DagBuilder()
